@@ -189,7 +189,7 @@ def toks_text(toks):
     return "".join(t.text for t in toks)
 
 
-def rewrite_builtin(text, cnt):
+def rewrite_builtin(text, cnt, mutable=True):
     """R1 log statements, R2 lock elision, R3 atomics.  Token based: never touches
     strings or comments."""
     toks = lex(text)
@@ -236,6 +236,20 @@ def rewrite_builtin(text, cnt):
                             out.append(Tok("p", "()", 0, 0))
                             k = close + 1
                             continue
+        # ---- R2/R3 constructors: Mutex::new(x) / RwLock::new(x) / AtomicUsize::new(x) / AtomicBool::new(x) -> (x)
+        if t.kind == "id" and t.text in ("Mutex", "RwLock", "AtomicUsize", "AtomicBool"):
+            j = seq_at(k + 1, [":", ":", "new"])
+            if j > 0:
+                j2 = nxt(j)
+                if j2 < n and toks[j2].text == "(":
+                    # drop a leading std::sync:: / std::sync::atomic:: path already emitted
+                    p = len(out) - 1
+                    while p >= 0 and out[p].kind in CODE and out[p].text in (":", "std", "sync", "atomic"):
+                        p -= 1
+                    del out[p + 1:]
+                    cnt.add("R2.lock-ctor-elided" if t.text in ("Mutex", "RwLock") else "R3.atomic-ctor-elided")
+                    k = j2
+                    continue
         # ---- R2: .read()/.write()/.lock() followed by .unwrap()/.expect(..)
         if t.kind == "p" and t.text == ".":
             j = nxt(k + 1)
@@ -278,7 +292,7 @@ def rewrite_builtin(text, cnt):
                             while recv_start <= p and out[recv_start].kind not in CODE: recv_start += 1
                             recv = out[recv_start:p + 1]
                             del out[recv_start:]
-                            borrow = "&mut " if kind in ("write", "lock") else "&"
+                            borrow = "&mut " if (kind in ("write", "lock") and mutable) else "&"
                             out.append(Tok("p", "(" + borrow, 0, 0))
                             out.extend(recv)
                             out.append(Tok("p", ")", 0, 0))
@@ -575,6 +589,8 @@ class Unit:
             if ln.startswith("//@insert"):
                 m = re.match(r"//@insert\s+(before|after|inv)\s+`(.*)`\s*$", ln)
                 if not m:
+                    m = re.match(r"//@insert\s+(tail)()\s*$", ln)
+                if not m:
                     raise AnchorLost("%s:%d: bad //@insert" % (self.vc_path, lno))
                 body = []
                 k += 1
@@ -633,7 +649,7 @@ class Unit:
             self.dropped.append("fn %s (%s:%d): body NOT verified (external, trusted spec)" % (path, rel, src_line))
             self.counts.add("R7.external-body")
         else:
-            new_body = rewrite_builtin(body, self.counts)
+            new_body = rewrite_builtin(body, self.counts, mutable=(mutself or any(o.startswith("mutarg=") for o in opts)))
             for (frm, to, expect, where) in rewrites:
                 if where == "sig": continue
                 if where == "unit":
@@ -644,7 +660,16 @@ class Unit:
                         pass
                 else:
                     new_body = apply_literal_rewrite(new_body, frm, to, expect, self.counts, path)
-            for (mode, anchor, ins, lno) in edits:
+            for (mode, anchor, ins, lno) in sorted(edits, key=lambda e: 0 if e[0] == "tail" else 1):
+                if mode == "tail":
+                    # R9: `{ stmts; tail }` -> `{ stmts; let r__ = tail; <ghost> r__ }` (same evaluation order)
+                    a, e = _tail_span(new_body, path)
+                    text = "\n".join(x[1] for x in ins)
+                    new_body = (new_body[:a] + "let r__ = " + new_body[a:e] + ";\n/*@ghost-begin %d*/\n%s\n/*@ghost-end*/\nr__" % (lno, text)
+                                + new_body[e:])
+                    self.counts.add("R9.tail-expression-bound-to-local")
+                    self.counts.add("ghost-insertions")
+                    continue
                 a, b = find_anchor(new_body, anchor, "%s (%s:%d)" % (path, os.path.basename(self.vc_path), lno))
                 if mode == "replace":
                     nst, repl = ins
@@ -744,6 +769,27 @@ def _stmts_end(text, start, count):
                 i += 1; break
             i += 1
     return code[i - 1].end
+
+
+def _tail_span(body, path):
+    """(start, end) offsets of the tail expression of a `{ ... }` function body"""
+    toks = lex(body)
+    code = [t for t in toks if t.kind in CODE]
+    if not code or code[0].text != "{" or code[-1].text != "}":
+        raise AnchorLost("%s: body is not a block" % path)
+    inner_end = code[-1].start
+    pos = code[1].start if len(code) > 2 else inner_end
+    last = None
+    while pos < inner_end:
+        e = _stmts_end(body[:inner_end], pos, 1)
+        last = (pos, e)
+        nxt = [t for t in toks if t.kind in CODE and t.start >= e and t.start < inner_end]
+        if not nxt:
+            break
+        pos = nxt[0].start
+    if last is None or body[last[1] - 1] == ";":
+        raise AnchorLost("%s: body has no tail expression" % path)
+    return last
 
 
 def _depth_between(toks, off, idx):
